@@ -101,10 +101,16 @@ def expected_reports(spec, res, tw):
             if tn in started and tn not in ended:
                 ended[tn] = i
     out = []
+    shadow = {}   # (tid, repr) -> kind of the thread that held the same ident at test start
     for oc in occs:
         if oc['open']:
             continue
         lo, hi = oc['index'], oc['end_index']
+        # the threads alive when the test started (the runner's snapshot), by simulated ident
+        at_start = {}
+        for tn, si in started.items():
+            if si < lo and not (tn in ended and ended[tn] < lo):
+                at_start[tw.reg[tn]['sim']] = tw.reg[tn]['kind']
         leaked = []
         for tn, si in started.items():
             if lo < si < hi and not (tn in ended and ended[tn] < hi):
@@ -114,9 +120,11 @@ def expected_reports(spec, res, tw):
                 if any(p.match(name) for p in ign):
                     continue
                 leaked.append(thread_repr(rec))
+                if rec['sim'] in at_start:
+                    shadow[(oc['tid'], thread_repr(rec))] = at_start[rec['sim']]
         if leaked:
             out.append((oc['tid'], sorted(leaked)))
-    return out
+    return out, shadow
 
 
 def thread_repr(rec):
@@ -150,8 +158,9 @@ def run(spec, ctx):
         tw.end_all()
     viols = []
     sid = {d['tid']: d['sid'] for d in m.discover()}
-    want = expected_reports(spec, res, tw)
+    want, shadow = expected_reports(spec, res, tw)
     want = [(sid[t], r) for t, r in want]
+    shadow = {(sid[t], r): k for (t, r), k in shadow.items()}
     got = []
     for mm in BLOCK_RE.finditer(res.text):
         reprs = sorted(x.strip() for x in re.split(r', (?=<Thread|DummyThread)', mm.group(2)))
@@ -174,9 +183,10 @@ def run(spec, ctx):
         sigs = set()
         for s_, r in missing:
             rec = by_repr.get(r)
-            if rec is not None and rec['recycled']:
+            if rec is not None and (s_, r) in shadow:
+                # its ident is that of a thread that was alive when the test started
                 sigs.add('C19/leak-not-reported/recycled-ident/new=%s,old=%s'
-                         % (rec['kind'], rec['prev_kind']))
+                         % (rec['kind'], shadow[(s_, r)]))
             else:
                 sigs.add('C19/leak-not-reported/fresh-ident')
         if extra:
